@@ -148,7 +148,8 @@ func cmdCheck(args []string) {
 	if s := os.Getenv("VERIF_SEED"); s != "" {
 		seed, _ = strconv.Atoi(s)
 	}
-	os.Exit(runCheck(id, *tier, seed, nil, true))
+	// VERIF_NO_EVIDENCE=1 is used by the seeded-change runner so that evidence files always describe the unchanged tree
+	os.Exit(runCheck(id, *tier, seed, nil, os.Getenv("VERIF_NO_EVIDENCE") == ""))
 }
 
 type CheckResult struct {
